@@ -982,3 +982,17 @@ Proof.
   rewrite encode_model_spec by apply denote_bytes.
   rewrite <- (canonical_iff_encode s W). split; [intro E; now injection E|intros ->; reflexivity].
 Qed.
+
+(* ---------- combined statements used by props/C18_b64.v ---------- *)
+Lemma encode_shape b : Forall is_byte b ->
+  length (encode_spec b) = (4 * ((length b + 2) / 3))%nat /\
+  Forall (fun c => in_alphabet c = true \/ c = rfc_pad) (encode_spec b).
+Proof. intro Hb. split; [now apply encode_spec_length | now apply encode_spec_symbols]. Qed.
+
+Lemma alphabet_is_table1 :
+  (forall v, v < 64 -> alpha v = Ok (rfc_sym v)) /\
+  (forall c, classify c = match rfc_val c with
+                          | Some v => SVal v
+                          | None => if c =? rfc_pad then SPad else SBad
+                          end).
+Proof. split; [exact alpha_rfc | exact classify_spec]. Qed.
